@@ -171,6 +171,7 @@ type Hand struct {
 	ReplayTrace []TraceStep // replay: execute exactly these steps (probe steps are re-made by the monitor)
 	replayPos   int
 	Opts        *pokerface.GameOptions // the options value the hand's game was made from (the table may start its next hand from the same value)
+	pre         func()                 // set-up that plays other hands first (runs inside playHand, under its recover and C06's guard)
 	spare       pokerface.Game         // a used game object from the pool: the hand may move onto it (LoadState) mid-way
 	lastInc     int64                  // size of the last bet or raise actually made in this round, as seen by the driver (0 = none yet)
 }
@@ -244,6 +245,11 @@ func playHand(h *Hand, mon Monitor) {
 			mon.Panic(h, fmt.Sprintf("%v\n%s", e, firstLines(st, 14)))
 		}
 	}()
+	if h.pre != nil {
+		pre := h.pre
+		h.pre = nil
+		pre()
+	}
 	c := h.C
 	var g pokerface.Game
 	startFresh := func() (pokerface.Game, error) {
